@@ -138,7 +138,16 @@ TrCall ==
               outOK == outcome' = e.out
               \* a presence query is a pure map query (C09): it borrows nothing, so no outcome of it is C08's business
               c08side == (IsBP(outcome') \/ IsBP(e.out) \/ e.op \in GuardOps) /\ e.op \notin {"has_value", "has_value_raw"}
-              a1 == outOK \/ ~c08side
+              \* "the try_/Option forms return None only when the resource is absent" is part of
+              \* C08's statement (and "fetches agree with the map" of C09's): a PRESENT resource
+              \* reported absent by a well-typed fetch clears the flags of both properties
+              missing == \/ /\ e.op \in FetchOps /\ e.targ = e.ty /\ store[<<e.ty, e.dy>>] # Absent
+                            /\ (e.out.k = "none" \/ (e.out.k = "panic" /\ e.out.why = "absent"))
+                         \/ /\ e.op \in {"system_data", "meta_iter", "meta_iter_mut"}
+                            /\ \/ (e.out.k = "panic" /\ e.out.why = "absent" /\ outcome' # e.out)
+                               \/ /\ e.out.k = "guards" /\ outcome'.k = "guards" /\ Len(e.out.vs) = Len(outcome'.vs)
+                                  /\ \E i \in DOMAIN e.out.vs : e.out.vs[i] = NoVal /\ outcome'.vs[i] # NoVal
+              a1 == outOK \/ ~(c08side \/ missing)
               a2 == outOK \/ c08side
               a3 == /\ ObsBSeq(e.obs) = SpecBSeq(borrow')
                     /\ ObsGSet(e.obs) = SpecGSet(guards') /\ Len(e.obs.guards) = Cardinality(DOMAIN guards')
